@@ -1,12 +1,16 @@
 (* Marketplace proofs, top level: the theorems about the eight marketplace messages and about
    begin-block pruning (properties C06, C12 and the marketplace parts of C01 - C04, C07).
 
-   Hypothesis used throughout besides Inv_core: [Inv_bound s], every tradable supply is below
-   BOUND = 10^99000 units (InvMarketLib.v).  It is needed because apd refuses results with more than
-   100000 digits: without it (a) re-parsing the remaining quantity [to_string (oq - q)] that fillOrder stores,
-   and the difference that update passes to unescrow as a string, could fail, and (b) the additions in
-   unescrowCredits could return "exponent out of range" and halt the chain in BeginBlock.  The bound is
-   preserved by every marketplace message and by pruning (tradable supplies never grow). *)
+   Hypotheses used besides Inv_core:
+   * [Inv_bound s] (InvMarketLib.v): every tradable supply is representable, U < BOUND = 10^100007 units,
+     i.e. it is a decimal apd accepts (adjusted exponent <= 100000).  Needed because fillOrder / Sell /
+     Update store [to_string d] and the order invariant needs it to parse again, and because the additions in
+     unescrowCredits must not return "exponent out of range".  Preserved by every marketplace message and by
+     pruning (tradable supplies never grow); for the other handlers it follows from the fact that every
+     stored amount is the Ok result of an addition (InvMarketLib.add_gen_result_bound).
+   * [Inv_qty s] (InvMarketOrders.v), for BeginBlock totality only: stored order quantities have no positive
+     exponent.  Established by Sell / Update / fillOrder storing the plain rendering; InvMarketHalt.v shows
+     that BeginBlock fails without it. *)
 From stdpp Require Import gmap.
 From RecordUpdate Require Import RecordSet.
 From Coq Require Import ZArith NArith List Bool Lia Strings.Byte.
@@ -33,7 +37,7 @@ Theorem market_step e s m s' r evs :
   handle e s m = LOk (s', r, evs) -> step_ok s s'.
 Proof.
   intros Hm Hc Hb Hvb H. destruct m; try discriminate Hm; cbn [handle validate_basic] in H, Hvb.
-  - apply andb_true_iff in Hvb. eapply h_sell_step; [exact Hc | apply Hvb | exact H].
+  - apply andb_true_iff in Hvb. eapply h_sell_step; [exact Hc | exact Hb | apply Hvb | exact H].
   - apply andb_true_iff in Hvb. eapply h_update_step; [exact Hc | exact Hb | apply Hvb | exact H].
   - eapply cancel_step; eassumption.
   - eapply h_buy_step; eassumption.
@@ -63,15 +67,18 @@ Section market.
   Theorem market_preserves_orders : Inv_orders s -> Inv_orders s'.
   Proof. apply Hstep. Qed.
 
+  Theorem market_preserves_qty : Inv_qty s -> Inv_qty s'.
+  Proof. apply Hstep. Qed.
+
   (* every table outside the marketplace's write set is untouched *)
   Theorem market_frame : s' = mk_frame s s'.
-  Proof. destruct Hstep as (_ & [Ho _ _ _ _] & _). exact Ho. Qed.
+  Proof. destruct Hstep as (_ & [Ho _ _ _ _] & _ & _). exact Ho. Qed.
 
   Theorem market_frame_basket :
     baskets s' = baskets s /\ basket_balances s' = basket_balances s /\
     (forall d, d <> uregen -> bank_sup s' d = bank_sup s d) /\ bank_sup s' uregen <= bank_sup s uregen.
   Proof.
-    destruct Hstep as (_ & [Ho _ _ H1 H2] & _). destruct (market_only_fields _ _ Ho) as (_ & _ & _ & _ & F5 & _ & F7 & _).
+    destruct Hstep as (_ & [Ho _ _ H1 H2] & _ & _). destruct (market_only_fields _ _ Ho) as (_ & _ & _ & _ & F5 & _ & F7 & _).
     tauto.
   Qed.
 
@@ -81,7 +88,7 @@ Section market.
     (forall k su, supplies s !! k = Some su -> exists su', supplies s' !! k = Some su' /\
         U (su_retired su) <= U (su_retired su') /\ U (su_cancelled su) <= U (su_cancelled su')).
   Proof.
-    destruct Hstep as (_ & [_ Hr Hs _ _] & _). split; [exact Hr|].
+    destruct Hstep as (_ & [_ Hr Hs _ _] & _ & _). split; [exact Hr|].
     intros k su Hsu. specialize (Hs k). rewrite Hsu in Hs.
     destruct (supplies s' !! k) as [su'|]; cbn [sup_rel] in Hs; [|contradiction].
     exists su'. destruct Hs as (_ & H2 & H3 & _). rewrite H3. split; [reflexivity|]. split; lia.
@@ -95,7 +102,7 @@ Section market.
     (forall k, is_Some (supplies s' !! k) <-> is_Some (supplies s !! k)) /\
     dom (supplies s') = dom (supplies s).
   Proof.
-    destruct Hstep as (_ & [_ _ Hs _ _] & _).
+    destruct Hstep as (_ & [_ _ Hs _ _] & _ & _).
     assert (Hdom : forall k, is_Some (supplies s' !! k) <-> is_Some (supplies s !! k)).
     { intros k. specialize (Hs k). destruct (supplies s !! k), (supplies s' !! k); cbn [sup_rel] in Hs;
         try contradiction; split; intros [x Hx]; try discriminate; eauto. }
@@ -117,13 +124,17 @@ Proof. intros Hc Hb H. eapply mframe_bound; [apply (prune_step t s s' Hc H) | ex
 Theorem prune_preserves_orders t s s' : Inv_core s -> prune_sell_orders t s = LOk s' -> Inv_orders s -> Inv_orders s'.
 Proof. intros Hc H. apply (prune_step t s s' Hc H). Qed.
 
+Theorem prune_preserves_qty t s s' : Inv_core s -> prune_sell_orders t s = LOk s' -> Inv_qty s -> Inv_qty s'.
+Proof. intros Hc H. apply (prune_step t s s' Hc H). Qed.
+
 (* C12: BeginBlock never fails (never halts the chain) and keeps the invariants *)
-Theorem begin_block_total t s : Inv_core s -> Inv_bound s ->
-  exists s', begin_block t s = LOk s' /\ Inv_core s' /\ Inv_bound s' /\ (Inv_orders s -> Inv_orders s').
+Theorem begin_block_total t s : Inv_core s -> Inv_bound s -> Inv_qty s ->
+  exists s', begin_block t s = LOk s' /\ Inv_core s' /\ Inv_bound s' /\ Inv_qty s' /\ (Inv_orders s -> Inv_orders s').
 Proof.
-  intros Hc Hb. unfold begin_block. destruct (prune_total t s Hc Hb) as [s' H]. exists s'.
+  intros Hc Hb Hq. unfold begin_block. destruct (prune_total t s Hc Hb Hq) as [s' H]. exists s'.
   split; [exact H|]. split; [eapply prune_preserves_core; eassumption|].
-  split; [eapply prune_preserves_bound; eassumption | eapply prune_preserves_orders; eassumption].
+  split; [eapply prune_preserves_bound; eassumption|].
+  split; [eapply prune_preserves_qty; eassumption | eapply prune_preserves_orders; eassumption].
 Qed.
 
 (* C04 / C02 for pruning: supplies are untouched, retired balances are untouched *)
@@ -152,4 +163,45 @@ Proof.
   inversion H; subst s' ids'; clear H.
   rewrite Hx in Hu1. split; [exact Hu1|].
   eexists _, _. split; [reflexivity|]. cbn. rewrite lookup_insert. split; [reflexivity | exact Hx].
+Qed.
+
+(* ------------------------------------------------------------------ *)
+(* the hypotheses are satisfiable                                      *)
+(* ------------------------------------------------------------------ *)
+
+Definition empty_state : state :=
+  {| credit_types := ∅; classes := ∅; class_seq_id := 0; class_issuers := ∅; projects := ∅; project_seq_id := 0;
+     batches := ∅; batch_seq_id := 0; class_sequences := ∅; project_sequences := ∅; batch_sequences := ∅;
+     balances := ∅; supplies := ∅; origin_txs := ∅; batch_contracts := ∅; allowlist_enabled := false;
+     allowed_creators := ∅; class_fee := None; allowed_bridge_chains := ∅; baskets := ∅; basket_seq_id := 0;
+     basket_classes := ∅; basket_balances := ∅; basket_fee := None; sell_orders := ∅; sell_order_seq_id := 0;
+     allowed_denoms := ∅; markets := ∅; market_seq_id := 0; fee_params_ := None; bank := ∅; bank_supply := ∅ |}.
+
+Lemma empty_lookup_absurd {K V} `{Countable K} (k : K) (v : V) : (∅ : gmap K V) !! k = Some v -> False.
+Proof. rewrite lookup_empty. discriminate. Qed.
+
+Example market_hyps_satisfiable :
+  Inv_core empty_state /\ Inv_bound empty_state /\ Inv_qty empty_state /\ Inv_orders empty_state.
+Proof.
+  split; [|split; [|split]].
+  - split; [intros a ct H; exact (False_ind _ (empty_lookup_absurd _ _ H))|].
+    split.
+    { split; [intros k v H; exact (False_ind _ (empty_lookup_absurd _ _ H))|].
+      split; [intros k v H; exact (False_ind _ (empty_lookup_absurd _ _ H))|].
+      split; intros k v H; exact (False_ind _ (empty_lookup_absurd _ _ H)). }
+    split.
+    { split; [intros k1 k2 b1 b2 H; exact (False_ind _ (empty_lookup_absurd _ _ H))|].
+      split; [intros k; cbn; split; intros [x Hx]; exact (False_ind _ (empty_lookup_absurd _ _ Hx))|].
+      split; [intros a k v H; exact (False_ind _ (empty_lookup_absurd _ _ H))|].
+      split; [intros id d v H; exact (False_ind _ (empty_lookup_absurd _ _ H))|].
+      split; [intros id v H; exact (False_ind _ (empty_lookup_absurd _ _ H))|].
+      split; [intros k [x Hx]; exact (False_ind _ (empty_lookup_absurd _ _ Hx))|].
+      split; intros k [x Hx]; exact (False_ind _ (empty_lookup_absurd _ _ Hx)). }
+    split; [intros bk ba su H; exact (False_ind _ (empty_lookup_absurd _ _ H))|].
+    intros a bk. unfold get_balance. cbn [balances sell_orders empty_state]. rewrite lookup_empty.
+    unfold order_sum. rewrite sum_map_empty. reflexivity.
+  - intros k su H. exact (False_ind _ (empty_lookup_absurd _ _ H)).
+  - intros id o H. exact (False_ind _ (empty_lookup_absurd _ _ H)).
+  - split; [intros id o H; exact (False_ind _ (empty_lookup_absurd _ _ H))|].
+    intros k [x Hx]. exact (False_ind _ (empty_lookup_absurd _ _ Hx)).
 Qed.
